@@ -95,6 +95,17 @@ def make_pool(seed: int) -> tuple[dict[str, dict], bool, str]:
         if hostile:
             doc = hostile_variant(doc, r)
         docs[f"d{i}"] = doc
+    if r.random() < 0.3:
+        # degenerate successors: a document without any operation and/or without any schema (an earlier
+        # generation's api/ or models/ content must not survive an overwrite with it)
+        k = r.choice(sorted(docs))
+        docs[k] = copy.deepcopy(docs[k])
+        which = r.choice(["no-paths", "no-schemas", "both"])
+        if which in ("no-paths", "both"):
+            docs[k]["paths"] = {}
+        if which in ("no-schemas", "both"):
+            docs[k]["paths"] = {}
+            docs[k].pop("components", None)
     if r.random() < 0.15:
         # a document with another title: the 'same names' proviso no longer holds for this history
         k = r.choice(sorted(docs))
@@ -150,6 +161,8 @@ def run_seed(args: dict, sandbox: str) -> dict:
         "out_mode": out_mode,
         "hostile": hostile,
         "config": {"generate_all_tags": r.random() < 0.3},
+        # an idempotent custom post-hook (a real subprocess run in the project directory) in a third of the histories
+        "post_hooks": r.choice([[], [], ["touch hook_ran.txt"]]),
     }
     res = run_spec({"spec": spec}, sandbox)
     if not res.get("violations"):
@@ -168,7 +181,7 @@ class World:
         self.P = os.path.join(sandbox, "P")
         self.cwd = os.path.join(self.P, "work")
         os.makedirs(self.cwd)
-        self.cfg = genrun.write_config(sandbox, {"post_hooks": [], **(spec.get("config") or {})})
+        self.cfg = genrun.write_config(sandbox, {"post_hooks": list(spec.get("post_hooks") or []), **(spec.get("config") or {})})
         self.docpaths = {}
         for k, d in spec["docs"].items():
             p = os.path.join(sandbox, f"{k}.json")
@@ -255,6 +268,9 @@ class World:
     # ------------------------------------------------------------------ invariants
     def check_confinement(self, seam, label: str, before_outside: dict) -> None:
         O = self.O
+        for rec in seam.escapes:
+            self.viol("write-outside-output", rec["op"], f"{label}: mutating op {rec['op']} on {rec['path']} was attempted outside the sandbox parent (blocked by the simulator)")
+            return
         for rec in seam.log:
             if not (rec.get("ok") or rec.get("fault") == "torn-write"):
                 continue  # only operations that were performed change the file system
@@ -356,7 +372,7 @@ class World:
                 self.viol("write-outside-output", "derived-location", f"{label}: one generate command created several entries in the working directory: {new}")
         self.check_confinement(seam, label, before_outside)
         faulted = seam.fired is not None
-        if seam.fired:
+        if seam.fired and seam.fired != "escape-blocked":
             self.faults[seam.fired if not seam.fired.startswith("errno") else "disk-" + seam.fired] = self.faults.get(seam.fired if not seam.fired.startswith("errno") else "disk-" + seam.fired, 0) + 1
         diags = res["diagnostics"] or []
         has_error = any(d["level"] == "ERROR" for d in diags)
@@ -444,7 +460,8 @@ class World:
             os.unlink(os.path.join(self.O, rel))
             del self.user_files[rel]
         elif act in ("write-generated", "delete-generated"):
-            gen = sorted(k for k, v in self.tree().items() if v[0] == "f" and k not in self.user_files)
+            # files written by the post-hook subprocess (not by the generator) are not rewritten by a regeneration
+            gen = sorted(k for k, v in self.tree().items() if v[0] == "f" and k not in self.user_files and os.path.basename(k) != "hook_ran.txt")
             if gen:
                 rel = gen[n % len(gen)]
                 if act == "write-generated":
@@ -622,6 +639,10 @@ def shrink_candidates(spec: dict) -> list[dict]:
     if any((spec.get("config") or {}).values()):
         s = copy.deepcopy(spec)
         s["config"] = {}
+        out.append(s)
+    if spec.get("post_hooks"):
+        s = copy.deepcopy(spec)
+        s["post_hooks"] = []
         out.append(s)
     # shrink documents
     for k in sorted(spec["docs"]):
